@@ -259,6 +259,9 @@ static void progress(void)
     g_epoch++;
     g_last_progress = g_steps;
 }
+static __thread int t_noswitch;
+void abtv_atomic_begin(void) { t_noswitch++; }
+void abtv_atomic_end(void) { t_noswitch--; }
 static void point_locked(int op, int force)
 {
     g_steps++;
@@ -279,7 +282,7 @@ static void point_locked(int op, int force)
     } else {
         progress();
     }
-    if (nact == 1)
+    if (nact == 1 || t_noswitch > 0)
         return;
     int sw = force || idle_of(me) > IDLE_T || (int)(xs(&g_sched_rng) % 1000) < g_sw_permille;
     if (!sw)
